@@ -35,7 +35,7 @@ func init() {
 			"top-level declarations are excluded: go/printer forces blank lines between declarations of different kinds regardless of positions",
 			"struct fields and parenthesised specs: gofmt strips blank lines directly after '{'/'(' and before '}'/')', so only between-element blank lines are asserted there",
 		},
-		Required: map[string]int{"list_kinds": 8, "patterns": 6},
+		Required: map[string]int{"list_kinds": 8, "patterns": 8},
 	})
 }
 
@@ -47,6 +47,9 @@ type c05Kind struct {
 	exprList  bool // elements are expressions: own line only with NewLine spacing
 	stmtLevel bool
 	imports   bool // elements are package-qualified identifiers: decorated and restored with import management
+	// openDecs returns the decoration list that sits directly after the opening delimiter of the
+	// container (BlockStmt.Lbrace, CompositeLit.Lbrace, CallExpr.Lparen, CaseClause.Colon ...)
+	openDecs func(f *dst.File) *dst.Decorations
 }
 
 func names(n int) []string {
@@ -181,7 +184,38 @@ var c05Kinds = []c05Kind{
 		}},
 }
 
-var c05Patterns = []string{"none", "end-line-comment", "start-line-comment", "end-newline", "end-two-newlines", "end+start-line-comments"}
+var c05Patterns = []string{"none", "end-line-comment", "start-line-comment", "end-newline", "end-two-newlines", "end+start-line-comments", "open-newline", "open-line-comment"}
+
+func init() {
+	valueOf := func(f *dst.File, decl int) dst.Expr {
+		return f.Decls[decl].(*dst.GenDecl).Specs[0].(*dst.ValueSpec).Values[0]
+	}
+	for i := range c05Kinds {
+		k := &c05Kinds[i]
+		switch k.name {
+		case "block-statements":
+			k.openDecs = func(f *dst.File) *dst.Decorations { return &f.Decls[0].(*dst.FuncDecl).Body.Decs.Lbrace }
+		case "case-body":
+			k.openDecs = func(f *dst.File) *dst.Decorations {
+				return &f.Decls[0].(*dst.FuncDecl).Body.List[0].(*dst.SwitchStmt).Body.List[0].(*dst.CaseClause).Decs.Colon
+			}
+		case "composite-literal":
+			k.openDecs = func(f *dst.File) *dst.Decorations { return &valueOf(f, 0).(*dst.CompositeLit).Decs.Lbrace }
+		case "call-arguments":
+			k.openDecs = func(f *dst.File) *dst.Decorations { return &valueOf(f, 0).(*dst.CallExpr).Decs.Lparen }
+		case "composite-literal-qualified":
+			k.openDecs = func(f *dst.File) *dst.Decorations { return &valueOf(f, 1).(*dst.CompositeLit).Decs.Lbrace }
+		case "call-arguments-qualified":
+			k.openDecs = func(f *dst.File) *dst.Decorations { return &valueOf(f, 1).(*dst.CallExpr).Decs.Lparen }
+		case "struct-fields":
+			k.openDecs = func(f *dst.File) *dst.Decorations {
+				return &f.Decls[0].(*dst.GenDecl).Specs[0].(*dst.TypeSpec).Type.(*dst.StructType).Fields.Decs.Opening
+			}
+		case "value-specs":
+			k.openDecs = func(f *dst.File) *dst.Decorations { return &f.Decls[0].(*dst.GenDecl).Decs.Lparen }
+		}
+	}
+}
 
 func nodeDecs(n dst.Node) *dst.NodeDecs {
 	return n.Decorations()
@@ -217,7 +251,21 @@ func c05Case(c *fw.Ctx, kind c05Kind, n int, pattern string, sp []dst.SpaceType,
 	extraBreaksAfterTarget := 0
 	startComment := false
 	endComment := false
-	if pattern != "none" {
+	openPattern := strings.HasPrefix(pattern, "open-")
+	if openPattern {
+		od := kind.openDecs(f)
+		*od = nil
+		if pattern == "open-newline" {
+			*od = dst.Decorations{"\n"}
+		} else {
+			*od = dst.Decorations{"// O"}
+		}
+	} else if kind.openDecs != nil {
+		// the template's own line break after the opening delimiter may have been parsed as a
+		// "\n" decoration there; the spacing under test is given by Before of the first element
+		*kind.openDecs(f) = nil
+	}
+	if pattern != "none" && !openPattern {
 		td := nodeDecs(els[target])
 		switch pattern {
 		case "end-line-comment":
@@ -397,8 +445,11 @@ func c05Case(c *fw.Ctx, kind c05Kind, n int, pattern string, sp []dst.SpaceType,
 		first, last := line["elem1"], line[lastName]
 		keepOpen, keepClose := c05EdgeCalibration(kind)
 		// opening edge: only when the first element occupies its own line
+		if openPattern && first <= openLine {
+			fail("missing-line-break", fmt.Sprintf("a %s decoration follows the opening delimiter but the first element stays on line %d", pattern, openLine))
+		}
 		if first > openLine {
-			if kind.exprList && sp[0] == dst.None {
+			if kind.exprList && sp[0] == dst.None && !openPattern {
 				fail("unexpected-line-break", fmt.Sprintf("first element should stay on the opening line %d, is on %d", openLine, first))
 			} else if keepOpen {
 				want := 0
